@@ -47,6 +47,25 @@ theorem punycode_ascii (p : Profile) (input : List Char) :
     · exact Or.inl h'
     · exact Or.inr (Or.inr (Or.inl h'))
 
+/-- **`punycode_total_partial`** (class: inputs of at most 3855 characters — every DNS label is at
+most 63). On that class the encoder succeeds, and does so identically in both arithmetic
+profiles: the checked multiplication cannot fail, the two unchecked `delta += 1` cannot overflow,
+`min().unwrap()` cannot panic. -/
+theorem punycode_total_partial (p : Profile) (input : List Char) (h : input.length ≤ 3855) :
+    ∃ out, punycodeEncodeP p input = .ok out ∧ punycodeEncodeP .dev input = .ok out :=
+  punycode_short p input h
+
+/-- **`punycode_total_full_is_false`.** Without the length bound the statement is false of the
+crate: 4000 × U+0080 followed by U+1061C2 (4001 characters) passes the only overflow check
+(`lib.rs:158`) and then overflows the UNCHECKED `delta += 1` of `lib.rs:168` — a panic
+("attempt to add with overflow") with overflow checks on (dev profile); with checks off (release)
+the addition wraps and a wrong 4003-character encoding is returned (confirmed on the real crate:
+same last characters `…aaaaaaaaa29s` as `punycodeEncodeP .release`). RFC 3492 section 6.4 asks
+for a failure there. -/
+theorem punycode_total_full_is_false :
+    ¬ (∀ input, punycodeEncodeP .dev input ≠ .panic) ∧ overflowWitness.length = 4001 :=
+  ⟨fun h => h overflowWitness overflowWitness_panics, overflowWitness_length⟩
+
 /-- **`idna_label_shape`.** For every domain text for which `to_idna` succeeds: the result is the
 '.'-join of one output label per input label (same positions), where each output label
 * is ASCII,
@@ -177,5 +196,136 @@ example : ∃ ids, mkIdentifiers sampleParams sampleRaws = .ok ids ∧
 /-- dns-01 is refused for an IP identifier (`identifier.rs:65-69`). -/
 example : Identifier.new sampleParams .ip "192.0.2.1".toList "dns-01".toList [] = .errUnsupported := by
   decide +kernel
+
+/-! ## Consistency of the judge with the model
+
+`Spec.C01Ident.holds` accepts what the model produces (so a run that matches the model is judged
+as holding, and the judge's own definition of "lowercase A-label form" is not stricter than what
+`to_idna` delivers under the stated hypotheses on lower-casing). -/
+
+open AcmedVerif.Spec.C01Ident in
+theorem labelsOk_of_zip (names ls : List (List Char)) (hlen : ls.length = names.length)
+    (h : ∀ x ∈ names.zip ls, labelOk x.1 x.2 = true) : labelsOk names ls = true := by
+  induction names generalizing ls with
+  | nil =>
+    have : ls = [] := List.eq_nil_of_length_eq_zero hlen
+    subst this; rfl
+  | cons n ns ih =>
+    cases ls with
+    | nil => simp at hlen
+    | cons l ls' =>
+      simp only [labelsOk, Bool.and_eq_true]
+      refine ⟨h (n, l) (by simp), ih ls' (by simpa using hlen) ?_⟩
+      intro x hx
+      exact h x (by simp only [List.zip_cons_cons]; exact List.mem_cons_of_mem _ hx)
+
+open AcmedVerif.Spec.C01Ident in
+/-- The judge's shape definition accepts every result of `to_idna`. -/
+theorem judge_accepts_idna (lowerStr : List Char → List Char) (hA : LowerAscii lowerStr)
+    (hU : LowerNoUpper lowerStr) (hD : LowerNoDot lowerStr) (p : Profile) (domain out : List Char)
+    (h : toIdnaStr lowerStr p domain = .ok out) : dnsShapeOk domain out = true := by
+  obtain ⟨ls, hls, rfl⟩ := toIdnaStr_ok lowerStr p domain out h
+  obtain ⟨hlen, hz⟩ := idnaLabels_spec lowerStr p _ ls hls
+  have hnodot : ∀ l ∈ ls, '.' ∉ l := by
+    intro l hl
+    obtain ⟨name, hn⟩ := exists_zip_of_mem_right _ ls hlen l hl
+    exact idnaLabel_noDot hA hD p name l
+      (splitOn_no_sep '.' domain name (List.of_mem_zip hn).1) (hz _ hn)
+  have hne : ls ≠ [] := by
+    intro e
+    subst e
+    exact splitOn_ne_nil '.' domain (List.eq_nil_of_length_eq_zero hlen.symm)
+  unfold dnsShapeOk
+  rw [split_join '.' ls hne hnodot]
+  apply labelsOk_of_zip _ _ hlen
+  intro x hx
+  have sh := idnaLabel_shape hA p x.1 x.2 (hz x hx)
+  have hup := idnaLabel_noUpper hA hU p x.1 x.2 (hz x hx)
+  simp only [labelOk, Bool.and_eq_true]
+  refine ⟨⟨sh.ascii, ?_⟩, ?_⟩
+  · rw [List.all_eq_true]
+    intro c hc
+    simp [hup c hc]
+  · by_cases hn : allAscii x.1 = true
+    · simp only [hn, if_true]
+      rw [← sh.asciiCase hn]
+      exact beq_self_eq_true _
+    · simp only [hn, Bool.false_eq_true, if_false]
+      obtain ⟨o, _, ho⟩ := sh.idnCase (by simpa using hn)
+      rw [ho]
+      exact List.isPrefixOf_iff_prefix.2 (List.prefix_append _ _)
+
+/-- The configuration as the judge sees it, with the MODEL's values as expectation. -/
+def cfgOf (raws : List RawId) (ids : List Identifier) : List Spec.C01Ident.CfgId :=
+  (raws.zip ids).map fun x =>
+    { idType := x.2.idType, raw := (x.1.typed.map (·.2)).getD [], expected := x.2.value }
+
+open AcmedVerif.Spec.C01Ident in
+/-- For every configuration that loads, the judge accepts the model's newOrder identifiers and CSR
+split (given that the canonical IP text has the judge's IP shape). -/
+theorem judge_accepts_model (P : Params) (hA : LowerAscii P.lowerStr)
+    (hU : LowerNoUpper P.lowerStr) (hD : LowerNoDot P.lowerStr)
+    (hip : ∀ s o, P.ipCanon s = some o → ipShapeOk o = true)
+    (raws : List RawId) (ids : List Identifier) (h : mkIdentifiers P raws = .ok ids) :
+    holds (cfgOf raws ids) (orderIds ids) (csrDomains ids) (csrIps ids) = true := by
+  obtain ⟨hlen, hz⟩ := mkIdentifiers_spec P raws ids h
+  have hmap : (cfgOf raws ids).map (fun c => (c.idType, c.expected)) = orderIds ids := by
+    simp only [cfgOf, List.map_map, orderIds]
+    have : ((fun c : CfgId => (c.idType, c.expected)) ∘ fun x : RawId × Identifier =>
+        ({ idType := x.2.idType, raw := (x.1.typed.map (·.2)).getD [], expected := x.2.value } : CfgId))
+        = (fun i : Identifier => (i.idType, i.value)) ∘ Prod.snd := rfl
+    rw [this, ← List.map_map, List.map_snd_zip (by omega)]
+  have hexp : ∀ t, expectedOf t (cfgOf raws ids) =
+      ((orderIds ids).filter fun x => x.1 = t).map (·.2) := by
+    intro t
+    rw [← hmap, List.filter_map, List.map_map]
+    rfl
+  simp only [holds, Bool.and_eq_true]
+  refine ⟨⟨⟨?_, ?_⟩, ?_⟩, ?_⟩
+  · rw [List.all_eq_true]
+    intro c hc
+    simp only [cfgOf, List.mem_map] at hc
+    obtain ⟨x, hx, rfl⟩ := hc
+    obtain ⟨t, v, htv, h1, h2, _⟩ := RawId.toGeneric_ok P x.1 x.2 (hz x hx)
+    simp only [shapeOk, htv, Option.map_some, Option.getD_some, h1]
+    cases t with
+    | dns =>
+      simp only [normValue] at h2
+      split at h2
+      · rename_i o ho
+        simp only [Except.ok.injEq] at h2
+        subst h2
+        exact judge_accepts_idna P.lowerStr hA hU hD P.profile v _ ho
+      · exact absurd h2 (by simp)
+      · exact absurd h2 (by simp)
+    | ip =>
+      simp only [normValue] at h2
+      split at h2
+      · rename_i o ho
+        simp only [Except.ok.injEq] at h2
+        subst h2
+        exact hip v _ ho
+      · exact absurd h2 (by simp)
+  · rw [hmap]; exact beq_self_eq_true _
+  · rw [hexp, ← csrDomains_eq]
+    exact List.isPerm_iff.2 (List.Perm.refl _)
+  · rw [hexp, ← csrIps_eq]
+    exact List.isPerm_iff.2 (List.Perm.refl _)
+
+/-- The judge rejects a run in which the order of two identifiers is swapped, a name is not
+lower-cased, or a SAN is missing. -/
+example :
+    let cfg : List Spec.C01Ident.CfgId :=
+      [ { idType := .dns, raw := "A.example".toList, expected := "a.example".toList },
+        { idType := .dns, raw := "b.example".toList, expected := "b.example".toList } ]
+    Spec.C01Ident.holds cfg [(.dns, "a.example".toList), (.dns, "b.example".toList)]
+      ["b.example".toList, "a.example".toList] [] = true ∧
+    Spec.C01Ident.holds cfg [(.dns, "b.example".toList), (.dns, "a.example".toList)]
+      ["b.example".toList, "a.example".toList] [] = false ∧
+    Spec.C01Ident.holds cfg [(.dns, "A.example".toList), (.dns, "b.example".toList)]
+      ["b.example".toList, "a.example".toList] [] = false ∧
+    Spec.C01Ident.holds cfg [(.dns, "a.example".toList), (.dns, "b.example".toList)]
+      ["a.example".toList] [] = false := by
+  refine ⟨by decide +kernel, by decide +kernel, by decide +kernel, by decide +kernel⟩
 
 end AcmedVerif.Props.C01Ident
